@@ -281,6 +281,156 @@ let suite_header path =
       | _ -> failwith ("bad case line: " ^ line))
     (read_lines path)
 
+(* ---------------- reader operation trees (C14) ---------------- *)
+let ity_of = function
+  | "u8" -> ReaderConcrete.U8 | "u16" -> ReaderConcrete.U16 | "u32" -> ReaderConcrete.U32
+  | "i16" -> ReaderConcrete.I16 | "i32" -> ReaderConcrete.I32 | _ -> failwith "type"
+
+let rec parse_ops (toks : string array) (pos : int ref) : ReaderConcrete.rop list =
+  let out = ref [] in
+  let fin = ref false in
+  while not !fin && !pos < Array.length toks do
+    let t = toks.(!pos) in
+    if String.length t > 0 && t.[0] = ']' then fin := true
+    else begin
+      incr pos;
+      let f = Array.of_list (String.split_on_char ':' t) in
+      let n k = z (int_of_string f.(k)) in
+      let op = match f.(0) with
+        | "P" -> ReaderConcrete.OPeek (ity_of f.(1), n 2)
+        | "R" -> ReaderConcrete.ORead (ity_of f.(1), n 2)
+        | "PS" -> ReaderConcrete.OPeekS (ity_of f.(1), n 2)
+        | "RS" -> ReaderConcrete.OReadS (ity_of f.(1), n 2)
+        | "K" -> ReaderConcrete.OSkip (n 1)
+        | "B" -> ReaderConcrete.OU8
+        | "V" -> ReaderConcrete.OVlc (n 1)
+        | "M" -> ReaderConcrete.OUmv
+        | "SC" -> ReaderConcrete.OStartCode (f.(1) = "1")
+        | "C" -> ReaderConcrete.OCommit
+        | "G" -> ReaderConcrete.OGrow (zs_of_hex f.(1))
+        | "T[" | "U[" | "L[" ->
+            let body = parse_ops toks pos in
+            let close = toks.(!pos) in
+            incr pos;
+            let v = match String.split_on_char ':' close with [ _; x ] -> int_of_string x | _ -> 0 in
+            (match f.(0) with
+             | "T[" -> ReaderConcrete.OTx (body, v = 1)
+             | "U[" -> ReaderConcrete.OTxUnion (body, z v)
+             | _ -> ReaderConcrete.OLookahead body)
+        | _ -> failwith ("bad op token " ^ t) in
+      out := op :: !out
+    end
+  done;
+  Stdlib.List.rev !out
+
+let tok_str (t : ReaderConcrete.tok) : string =
+  match t with
+  | ReaderConcrete.TVal v -> Printf.sprintf "v=%d" (i v)
+  | ReaderConcrete.TUnit -> "u"
+  | ReaderConcrete.TErr e -> "err:" ^ err_name e
+  | ReaderConcrete.TPanic -> "panic"
+  | ReaderConcrete.TNone -> "none"
+  | ReaderConcrete.TSome k -> Printf.sprintf "some=%d" (i k)
+  | ReaderConcrete.TClose (name, r) ->
+      let nm = match i name with 0 -> "tx" | 1 -> "un" | _ -> "la" in
+      (match r with
+       | Prelude.Ok (Some _) -> if i name = 1 then "un:some" else nm ^ ":ok"
+       | Prelude.Ok None -> "un:none"
+       | Prelude.Err e -> nm ^ ":err:" ^ err_name e
+       | _ -> "panic")
+
+let reader_fuel = nat_of_int 20000
+
+let suite_reader path =
+  Stdlib.List.iter
+    (fun line ->
+      match split_ws line with
+      | idx :: src :: ops ->
+          let pos = ref 0 in
+          let tree = parse_ops (Array.of_list ops) pos in
+          let r0 = ReaderConcrete.from_source (zs_of_hex src) in
+          let ((r1, toks), res) = ReaderConcrete.run_ops reader_fuel false tree r0 in
+          let ts = Stdlib.List.map tok_str toks in
+          let crashed = (match res with Prelude.Panic _ | Prelude.OutOfFuel -> true | _ -> false) in
+          let tail = if crashed then "panic" else "rest=" ^ next_str (ReaderConcrete.abs_reader r1) in
+          Printf.printf "%s %s\n" idx (String.concat " " (ts @ [ tail ]))
+      | [] -> ()
+      | _ -> failwith ("bad case line: " ^ line))
+    (read_lines path)
+
+(* ---------------- kernel tables (C11, C12) ---------------- *)
+let mk_pic plus extended w h : Recon.decoded_picture =
+  let hdr = { Header.version = None; Header.temporal_reference = z 0; Header.format = None; Header.options = z 0;
+              Header.has_plusptype = plus; Header.has_opptype = plus; Header.picture_type = Header.PFrame;
+              Header.motion_vector_range = Some (if extended then Header.MvExtended else Header.MvUnlimited);
+              Header.slice_submode = None; Header.scalability_layer = None; Header.rps_mode = None;
+              Header.prediction_reference = None; Header.quantizer = z 1; Header.multiplex_bitstream = None;
+              Header.pb_reference = None; Header.pb_quantizer = None; Header.extra = [] } in
+  let fmt = Header.Extended (Header.Square, z w, z h) in
+  match Recon.new_decoded hdr fmt with Some d -> d | None -> failwith "new_decoded"
+
+let suite_kernel_tables () =
+  for q = 1 to 31 do
+    for l = -1023 to 1023 do
+      if l <> 0 then Printf.printf "dq %d %d %d\n" q l (i (SpecRecon.spec_dequant (z q) (z l)))
+    done
+  done;
+  Stdlib.List.iteri (fun k (x, y) -> Printf.printf "zz %d %d %d\n" k (i x) (i y)) SpecRecon.zigzag_walk;
+  for c = 0 to 255 do
+    match SpecRecon.spec_intradc (z c) with
+    | None -> Printf.printf "dc %d none\n" c
+    | Some v -> Printf.printf "dc %d %d\n" c (i v)
+  done;
+  for s = -32768 to 32767 do
+    Printf.printf "avg %d %d\n" s (i (SpecRecon.chroma_spec (z s)));
+    let (d, b) = SpecRecon.lerp_spec (z s) in
+    Printf.printf "lerp %d %d %d\n" s (i d) (if b then 1 else 0)
+  done;
+  let sizes = [| (176, 144); (352, 288); (356, 292); (704, 576); (708, 580); (1412, 1152) |] in
+  let emit mode pic running ps ds =
+    Stdlib.List.iter (fun p -> Stdlib.List.iter (fun d ->
+      Stdlib.List.iter (fun isx ->
+        Printf.printf "hp %d %d %d %d %d\n" mode p d (if isx then 1 else 0)
+          (i (Recon.halfpel_decode pic (z running) (z p) (z d) isx))) [ true; false ]) ds) ps in
+  let range a b = Stdlib.List.init (b - a + 1) (fun k -> a + k) in
+  emit 0 (mk_pic false false 176 144) 0 (range (-40) 40) (range (-40) 40);
+  emit 1 (mk_pic false false 176 144) 8 (range (-70) 70) (range (-32) 31);
+  let wide = [ -4095; -2000; -600; -257; -256; -129; -128; -65 ] @ range (-64) 64 @ [ 65; 127; 128; 255; 256; 600; 2000; 4095 ] in
+  let preds = Stdlib.List.filter (fun p -> p mod 3 = 0 || abs p < 70 || abs (abs p - 128) < 3 || abs (abs p - 256) < 3 || abs (abs p - 512) < 3) (range (-600) 600) in
+  Array.iteri (fun k (w, h) -> emit (2 + k) (mk_pic true true w h) 8 preds wide) sizes;
+  emit 8 (mk_pic true false 176 144) 8 preds wide
+
+(* candidate cases: <idx> <mbw> <index> <cur 8 ints> <n> <n*8 ints> *)
+let suite_candidates path =
+  Stdlib.List.iter
+    (fun line ->
+      match split_ws line with
+      | idx :: rest ->
+          let f = Array.of_list (Stdlib.List.map int_of_string rest) in
+          let mv k = (z f.(k), z f.(k + 1)) in
+          let mv4 b = (((mv b, mv (b + 2)), mv (b + 4)), mv (b + 6)) in
+          let n = f.(10) in
+          let pv = Stdlib.List.init n (fun k -> mv4 (11 + 8 * k)) in
+          (match Recon.predict_candidate pv (mv4 2) (z f.(0)) (z f.(1)) with
+           | Prelude.Ok (x, y) -> Printf.printf "%s %d %d\n" idx (i x) (i y)
+           | _ -> Printf.printf "%s panic\n" idx)
+      | [] -> ())
+    (read_lines path)
+
+(* ---------------- IDCT (C10) ---------------- *)
+(* cases: <idx> <64 coefficients row-major [y][x]> -> the 64 values the model adds to the prediction *)
+let suite_idct path =
+  Stdlib.List.iter
+    (fun line ->
+      match split_ws line with
+      | idx :: rest ->
+          let f = Array.of_list (Stdlib.List.map int_of_string rest) in
+          let m = Stdlib.List.init 8 (fun y -> Stdlib.List.init 8 (fun x -> z f.(8 * y + x))) in
+          let vals = Recon.idct_all_values m in
+          Printf.printf "%s %s\n" idx (String.concat " " (Stdlib.List.map (fun v -> string_of_int (i v)) vals))
+      | [] -> ())
+    (read_lines path)
+
 let suite_strength_table () =
   Printf.printf "model %s\n"
     (String.concat "," (Stdlib.List.map (fun x -> string_of_int (i x)) Deblock.quant_to_strength));
@@ -298,4 +448,8 @@ let () =
   | _ :: "yuv-img" :: which :: p :: _ -> suite_yuv_img which p
   | _ :: "decode" :: mode :: p :: _ -> suite_decode (mode = "full") p
   | _ :: "header" :: p :: _ -> suite_header p
+  | _ :: "reader" :: p :: _ -> suite_reader p
+  | _ :: "kernel-tables" :: _ -> suite_kernel_tables ()
+  | _ :: "candidates" :: p :: _ -> suite_candidates p
+  | _ :: "idct" :: p :: _ -> suite_idct p
   | _ -> prerr_endline "usage: driver <suite> [file]"; exit 2
